@@ -71,14 +71,15 @@ func schedCase(rng *rand.Rand, w *Writer, suite string, kind string, canonical i
 	mk := func(raw []byte, gw uint64, ts int64) (server.GatewayPacket, string) {
 		datr := datrs[rng.Intn(len(datrs))]
 		rssi := int32(-rng.Intn(130))
+		snr8 := rng.Intn(281) - 160
 		ch := uint8(rng.Intn(8))
 		clock := rng.Uint32()
 		return server.GatewayPacket{
 			RawMessage: append([]byte{}, raw...),
-			Radio:      server.RadioContext{Channel: ch, RFChain: 0, Frequency: 868.1, DataRate: datr, Band: eu868, RSSI: rssi, SNR: 7.5},
+			Radio:      server.RadioContext{Channel: ch, RFChain: 0, Frequency: 868.1, DataRate: datr, Band: eu868, RSSI: rssi, SNR: float32(snr8) / 8},
 			Gateway:    server.GatewayContext{GatewayEUI: eui64(gw), GatewayHost: "127.0.0.1", GatewayPort: 1700, GatewayClock: clock, ProtocolVersion: 2},
 			ReceivedAt: time.Unix(0, 1600000000000000000+ts),
-		}, fmt.Sprintf("R,%s,%x,%d,%s,%d,%d,%d", hx(raw), gw, ts, datr, rssi, ch, clock)
+		}, fmt.Sprintf("R,%s,%x,%d,%s,%d/%d,%d,%d", hx(raw), gw, ts, datr, rssi, snr8, ch, clock)
 	}
 	p1, e1 := mk(f1, h.gws[0], 1000000)
 	p2, e2 := mk(f2, h.gws[1], 2000000)
